@@ -427,6 +427,8 @@ def run(ctx: Ctx) -> int:
     rep_src = CIRCUITS["three-channels"]
     rep_hist = [{"op": "sample", "shots": 33, "batch_size": 8}, {"op": "sample", "shots": 16, "batch_size": None}, {"op": "sample", "shots": 5, "batch_size": 8}]
     seeds = [rng.getrandbits(30) for _ in range(2 if quick else 4)]
+    # seeds that differ only in their high bits (every 32-bit seed is its own root: no folding onto a smaller range)
+    seeds += [seeds[0] + 2 ** 30, seeds[0] + 2 ** 31] + ([] if quick else [seeds[1] + 3 * 2 ** 30, 2 ** 32 - 1 - seeds[1]])
 
     def outputs(kind, src, seed, hist):
         s = make_sampler(kind, src, seed)
